@@ -213,8 +213,21 @@ def band_case(rec, seedt):
     N = int(rng.choice([2, 3, 16, 17, 256, 1001, int(rng.integers(2, 4000))]))
     sr = float(rng.choice([1.0, 44.1, 1000.0]))
     nyq = sr / 2
-    kind = str(rng.choice(["interior", "from-zero", "to-nyquist", "full", "empty", "narrow"]))
-    if kind == "interior":
+    kind = str(rng.choice(["interior", "from-zero", "to-nyquist", "full", "empty", "narrow",
+                           "on-bins", "on-bins", "one-bin"]))
+    if kind in ("on-bins", "one-bin"):
+        # band edges that ARE grid frequencies (taken from the FFT grid itself, so that they are
+        # inside the band by any reading), on grids whose spacing is not a binary fraction
+        N = int(rng.choice([10, 100, 300, 1000, 3000, 2 * int(rng.integers(5, 2000)),
+                            2 * int(rng.integers(5, 2000)) + 1]))
+        sr = float(rng.choice([1.0, 0.3, 7.0, 44.1, 1000.0, 48000.0]))
+        nyq = sr / 2
+        grid = np.fft.rfftfreq(N, d=1.0 / sr)
+        k1, k2 = sorted(int(k) for k in rng.integers(0, len(grid), size=2))
+        if kind == "one-bin":
+            k2 = k1
+        lo, hi = float(grid[k1]), float(grid[k2])
+    elif kind == "interior":
         lo, hi = sorted(rng.uniform(0, nyq, size=2))
     elif kind == "from-zero":
         lo, hi = 0.0, float(rng.uniform(0, nyq))
@@ -241,6 +254,8 @@ def band_case(rec, seedt):
         rec.violation("band_limited_noise-raises", f"{type(e).__name__}: {e} for {desc}")
         return
     rec.count("band_cases")
+    if kind in ("on-bins", "one-bin"):
+        rec.count("band_cases_with_edges_on_grid_frequencies")
     if np.iscomplexobj(x) or x.shape != (N,):
         rec.violation("band-noise-not-real", f"dtype {x.dtype}, shape {x.shape}")
         return
